@@ -21,7 +21,7 @@ META = {
 
 
 def obligations(tier, seed):
-    t = 400 if tier == 'quick' else 1800
+    t = 240 if tier == 'quick' else 1800
     obs = []
     # every structure parameter of the suite kernel comes from 19 booleans: b0-b1 transform, b2-b3 list length n,
     # b4.. parent kind x statement kinds (17 x 10^n)
